@@ -16,7 +16,7 @@ import (
 	"gonum.org/v1/gonum/graph/path/dynamic"
 	"gonum.org/v1/gonum/graph/simple"
 
-	"verif/harness/internal/core"
+	"gonum.org/v1/gonum/verifharness/internal/core"
 )
 
 func init() {
